@@ -577,8 +577,15 @@ func runTCP() []rec.Event {
 		close(ready)
 		go func() {
 			buf := make([]byte, 70000)
+			faulted := false
 			for {
 				n, err := d.Read(buf)
+				if err == nil && !faulted {
+					// the TNC asks for the first data frame again (CRCFAULT exists on the TCP interface too): it must come again
+					faulted = true
+					c.Write([]byte("CRCFAULT\r"))
+					continue
+				}
 				mu.Lock()
 				dataGot = append(dataGot, buf[:n]...)
 				mu.Unlock()
